@@ -88,7 +88,21 @@ def build_mm(pi, global_repo, reject):
     from textx import metamodel_from_str
     from textx.exceptions import TextXSemanticError
     import textx.scoping.providers as P
-    mm = metamodel_from_str(GRAMMAR, global_repository=global_repo)
+    classes = []
+    if reject.get('eq_root'):
+        # a user class for the root rule whose instances compare equal when they hold the same number of
+        # items: repositories must tell models apart by identity
+        class Model:
+            def __init__(self, imports=None, items=None):
+                self.imports, self.items = imports, items
+
+            def __eq__(self, other):
+                return type(other) is type(self) and len(self.items or []) == len(other.items or [])
+
+            def __hash__(self):
+                return 7
+        classes = [Model]
+    mm = metamodel_from_str(GRAMMAR, global_repository=global_repo, classes=classes)
     if PROVIDERS[pi] == 'PlainNameImportURI':
         prov = P.PlainNameImportURI()
     else:
@@ -136,12 +150,12 @@ def outcome_of(mm, path):
         return ('exception', '%s: %s' % (type(e).__name__, str(e)[:100]))
 
 
-def scenario(fi, ki, pi, global_repo, prior, exc='textx'):
+def scenario(fi, ki, pi, global_repo, prior, exc='textx', eq_root=False):
     """one run -> list of problems"""
     tmp = tempfile.mkdtemp(prefix='c18_')
     problems = []
     fn_bad, kind = FILES[fi], KINDS[ki]
-    reject = {'file': None, 'exc': exc}
+    reject = {'file': None, 'exc': exc, 'eq_root': eq_root}
     try:
         for fn, text in GOOD.items():
             with open(os.path.join(tmp, fn), 'w') as f:
@@ -316,8 +330,11 @@ def explore(item):
         prior = c.branch(z3.Bool('prior_successful_load'))
         # what the rejecting processor raises: a TextXError, another exception, or an interrupt
         exc = EXCS[pick(c, 'exception_class', len(EXCS))] if KINDS[ki].endswith('-processor') else 'textx'
+        eq_root = c.branch(z3.Bool('root_user_class_with_eq'))
+        if eq_root:
+            exc = exc + '+eq-root'
         try:
-            probs = scenario(fi, ki, pi, gr, prior, exc)
+            probs = scenario(fi, ki, pi, gr, prior, exc.split('+')[0], eq_root)
         except Exception as e:  # noqa
             probs = ['harness: %s: %s' % (type(e).__name__, e)]
         return (fi, ki, gr, prior, probs, exc)
@@ -362,7 +379,7 @@ def main():
             seen.add(key)
             chk.cov['traces_validated_against_impl'] += 1
             chk.violation('%s%s in %s (%s, global repository %s, prior load %s): %s' % (
-                KINDS[ki], '' if exc == 'textx' else ' raising %s' % ('an ordinary exception' if exc == 'exception' else 'an interrupt'),
+                KINDS[ki], ('' if exc.startswith('textx') else ' raising %s' % ('an ordinary exception' if exc.startswith('exception') else 'an interrupt')) + (' (root user class with __eq__)' if exc.endswith('+eq-root') else ''),
                 FILES[fi], r['provider'], gr, prior, probs[:2]),
                 {'file': fi, 'kind': ki, 'provider': pi, 'global_repo': gr, 'prior': prior, 'exc': exc})
         chk.sample({'provider': r['provider'], 'runs': r['paths'], 'clean': r['ok']})
@@ -388,6 +405,7 @@ def replay(data):
     if 'string_main' in data:
         pr = string_main_scenario(data['string_main'])
         return bool(pr), pr
+    ex = data.get('exc', 'textx')
     probs = scenario(data['file'], data['kind'], data['provider'], data['global_repo'], data['prior'],
-                     data.get('exc', 'textx'))
+                     ex.split('+')[0], ex.endswith('+eq-root'))
     return bool(probs), probs[:3]
